@@ -398,17 +398,22 @@ fn gen_acronyms(rng: &mut Rng, mode: usize, lazer: bool) -> String {
 }
 
 fn gen_rate(rng: &mut Rng) -> f64 {
-    match rng.below(6) {
-        0 => *rng.pick(&[0.5, 0.75, 1.0, 1.25, 1.5, 2.0]),
-        1 => *rng.pick(&[0.5075, 0.8, 1.1, 1.3, 1.7, 0.99]),
+    match rng.below(12) {
+        0 | 1 => *rng.pick(&[0.5, 0.75, 1.0, 1.25, 1.5, 2.0]),
+        2 | 3 => *rng.pick(&[0.5075, 0.8, 1.1, 1.3, 1.7, 0.99]),
+        // the documented range is [0.01, 100]
+        4 => *rng.pick(&[0.01, 0.05, 0.1, 0.25, 3.0, 10.0, 100.0]),
         _ => (rng.frange(0.5, 2.0) * 100.0).round() / 100.0,
     }
 }
 
 fn gen_attr(rng: &mut Rng) -> f64 {
-    match rng.below(8) {
+    match rng.below(10) {
         0 => *rng.pick(&[0.0, 10.0, 11.0, 5.0]),
         1 => (rng.frange(-2.0, 12.0) * 10.0).round() / 10.0,
+        // the whole documented range of the overrides is [-20, 20]
+        2 => (rng.frange(-20.0, 20.0) * 10.0).round() / 10.0,
+        3 => *rng.pick(&[-20.0, 20.0, 12.2, 13.0, 15.5, 19.9, -10.0, -0.1]),
         _ => (rng.frange(0.0, 10.0) * 10.0).round() / 10.0,
     }
 }
